@@ -13,7 +13,7 @@ from fractions import Fraction
 from typing import Optional
 
 from .core import AnalysisError, dotted, norm
-from .alg import T, num, var, op
+from .alg import T, num, var, op, app
 
 KINDS = ("CARTESIAN", "CYLINDRICAL", "SPHERICAL")
 
@@ -53,6 +53,20 @@ class Raised(Exception):
 class FnRef:
     """a function of the evaluated module used as a value (passed to reduce / map / stored in a dispatch table)"""
     name: str
+
+
+def freeze(x):
+    """tuples are lists for the evaluator; where one is used as a key it is the tuple again"""
+    if isinstance(x, list):
+        return tuple(freeze(y) for y in x)
+    return x
+
+
+class PySet(dict):
+    """a Python set of abstract values, in insertion order (keys of a dict)"""
+
+    def __repr__(self) -> str:
+        return "{" + ", ".join(map(repr, self)) + "}"
 
 
 class _Return(Exception):
@@ -386,7 +400,7 @@ class PyReader:
             if isinstance(base, list) and isinstance(k, int):
                 base[k] = v
             elif isinstance(base, dict):
-                base[k] = v
+                base[freeze(k)] = v
             else:
                 self.fail(node, "subscript store")
         else:
@@ -417,6 +431,8 @@ class PyReader:
                 return g
             if n.id == "pi":
                 return T("pi")
+            if any(isinstance(s_, ast.ImportFrom) and any((a_.asname or a_.name) == n.id for a_ in s_.names) for s_ in self.module.body):
+                return ("extfn", n.id)  # an imported function handed on as a value (map(f, xs), key=f): applied like the spelled-out call f(...)
             self.fail(n, "unbound name")
         if isinstance(n, ast.JoinedStr):
             # text of a message: concrete where its parts are (parameter names, indices), an opaque "<?>" elsewhere
@@ -480,6 +496,12 @@ class PyReader:
             hb = self.hook_binop(n.op, l, r, n)
             if hb is not NotImplemented:
                 return hb
+            if isinstance(l, PySet) and isinstance(r, PySet) and isinstance(n.op, (ast.Sub, ast.BitOr, ast.BitAnd)):
+                if isinstance(n.op, ast.Sub):
+                    return PySet((k_, True) for k_ in l if k_ not in r)
+                if isinstance(n.op, ast.BitOr):
+                    return PySet((k_, True) for k_ in list(l) + list(r))
+                return PySet((k_, True) for k_ in l if k_ in r)
             if isinstance(l, list) and isinstance(r, list) and isinstance(n.op, ast.Add):
                 return l + r
             if isinstance(l, list) and isinstance(r, int) and isinstance(n.op, ast.Mult):
@@ -511,7 +533,10 @@ class PyReader:
                 res = (l is r) if (l is None or r is None) else (l == r)
                 return res if isinstance(o, ast.Is) else not res
             if isinstance(o, (ast.In, ast.NotIn)) and (isinstance(r, (list, dict)) or (isinstance(r, str) and isinstance(l, str))):
-                res = l in r
+                try:
+                    res = (freeze(l) in r) if isinstance(r, dict) else (l in r)
+                except TypeError:  # an unhashable value looked up in a set / dict
+                    raise Raised("TypeError", getattr(n, "lineno", 0))
                 return res if isinstance(o, ast.In) else not res
             if isinstance(o, (ast.Eq, ast.NotEq)):
                 if isinstance(l, T) or isinstance(r, T):
@@ -550,10 +575,15 @@ class PyReader:
                 else:
                     out.append(self.ev(e, env, fns))
             return out
+        if isinstance(n, ast.Set):
+            out_ = PySet()
+            for e in n.elts:
+                out_[self.ev(e, env, fns)] = True
+            return out_
         if isinstance(n, ast.Subscript):
             base = self.ev(n.value, env, fns)
-            if isinstance(base, dict):
-                k = self.ev(n.slice, env, fns)
+            if isinstance(base, dict) and not isinstance(base, PySet):
+                k = freeze(self.ev(n.slice, env, fns))
                 if k in base:
                     return base[k]
                 raise Raised("KeyError", getattr(n, "lineno", 0))
@@ -568,40 +598,17 @@ class PyReader:
                         return base[k]
                     raise Raised("IndexError", getattr(n, "lineno", 0))
             self.fail(n, "subscript")
-        if isinstance(n, (ast.ListComp, ast.GeneratorExp)) and len(n.generators) == 1:
-            g = n.generators[0]
-            it = self.ev(g.iter, env, fns)
-            if isinstance(it, (str, dict)):
-                it = list(it)
-            if not isinstance(it, list):
-                self.fail(g.iter, "comprehension over a non-concrete sequence")
-            out = []
-            for x in it:
-                e2 = dict(env)
-                self.assign(g.target, x, e2, n)
-                keep = True
-                for cond in g.ifs:
-                    c = self.ev(cond, e2, fns)
-                    if c is None:
-                        c = False
-                    if not isinstance(c, bool):
-                        self.fail(cond, "comprehension condition not decidable")
-                    if not c:
-                        keep = False
-                        break
-                if keep:
-                    out.append(self.ev(n.elt, e2, fns))
-            return out
-        if isinstance(n, ast.DictComp) and len(n.generators) == 1 and not n.generators[0].ifs:
-            g = n.generators[0]
-            it = self.ev(g.iter, env, fns)
-            if not isinstance(it, list):
-                self.fail(g.iter, "comprehension over a non-concrete sequence")
+        if isinstance(n, (ast.ListComp, ast.GeneratorExp)):
+            return [self.ev(n.elt, e2, fns) for e2 in self.comp_envs(n.generators, env, fns, n)]
+        if isinstance(n, ast.DictComp):
             out = {}
-            for x in it:
-                e2 = dict(env)
-                self.assign(g.target, x, e2, n)
-                out[self.ev(n.key, e2, fns)] = self.ev(n.value, e2, fns)
+            for e2 in self.comp_envs(n.generators, env, fns, n):
+                out[freeze(self.ev(n.key, e2, fns))] = self.ev(n.value, e2, fns)
+            return out
+        if isinstance(n, ast.SetComp):
+            out = PySet()
+            for e2 in self.comp_envs(n.generators, env, fns, n):
+                out[freeze(self.ev(n.elt, e2, fns))] = True
             return out
         if isinstance(n, ast.Dict) and all(k is not None for k in n.keys):
             return {self.ev(k, env, fns): self.ev(v, env, fns) for k, v in zip(n.keys, n.values)}
@@ -610,6 +617,34 @@ class PyReader:
         if isinstance(n, ast.Lambda):
             return ("lambda", n, dict(env))
         self.fail(n, type(n).__name__)
+
+    def comp_envs(self, generators: list, env: dict, fns: dict, n: ast.AST) -> list:
+        """the environments of a comprehension's element, in order: `for a in x if c for b in y ...` (eager)"""
+        if not generators:
+            return [env]
+        g = generators[0]
+        if g.is_async:
+            self.fail(n, "async comprehension")
+        it = self.ev(g.iter, env, fns)
+        if isinstance(it, (str, dict)):
+            it = list(it)
+        if not isinstance(it, list):
+            self.fail(g.iter, "comprehension over a non-concrete sequence")
+        out = []
+        for x in it:
+            e2 = dict(env)
+            self.assign(g.target, x, e2, n)
+            keep = True
+            for cond in g.ifs:
+                c = self.ev(cond, e2, fns)
+                if not (c is None or isinstance(c, bool)):
+                    c = self.truthy(c, cond)
+                if not c:
+                    keep = False
+                    break
+            if keep:
+                out.extend(self.comp_envs(generators[1:], e2, fns, n))
+        return out
 
     def apply_value(self, fval, args: list, n: ast.AST, fns: dict, kwargs: Optional[dict] = None):
         """call a function VALUE: a FnRef, a lambda closure, or operator.add / operator.mul"""
@@ -636,6 +671,22 @@ class PyReader:
             fake = ast.BinOp(left=ast.Name(id="__op_l__", ctx=ast.Load()), op={"add": ast.Add(), "mul": ast.Mult(), "sub": ast.Sub(), "truediv": ast.Div()}[fval[1]], right=ast.Name(id="__op_r__", ctx=ast.Load()))
             ast.copy_location(fake, n)
             return self.ev(fake, {"__op_l__": args[0], "__op_r__": args[1]}, fns)
+        if isinstance(fval, tuple) and len(fval) == 2 and fval[0] == "extfn":
+            names_ = [f"__xf_a{i}__" for i in range(len(args))]
+            fake = ast.Call(func=ast.Name(id=fval[1], ctx=ast.Load()), args=[ast.Name(id=x, ctx=ast.Load()) for x in names_],
+                            keywords=[ast.keyword(arg=k, value=ast.Name(id=f"__xf_k{k}__", ctx=ast.Load())) for k in (kwargs or {})])
+            ast.copy_location(fake, n)
+            ast.fix_missing_locations(fake)
+            return self.ev_call(fake, {**dict(zip(names_, args)), **{f"__xf_k{k}__": v for k, v in (kwargs or {}).items()}}, fns)
+        if isinstance(fval, tuple) and len(fval) == 3 and fval[0] == "methodref":
+            # obj.name(args), evaluated exactly like the spelled-out method call
+            names_ = [f"__mr_a{i}__" for i in range(len(args))]
+            kws_ = {k: f"__mr_k{k}__" for k in (kwargs or {})}
+            fake = ast.Call(func=ast.Attribute(value=ast.Name(id="__mr_obj__", ctx=ast.Load()), attr=fval[2], ctx=ast.Load()),
+                            args=[ast.Name(id=x, ctx=ast.Load()) for x in names_], keywords=[ast.keyword(arg=k, value=ast.Name(id=v, ctx=ast.Load())) for k, v in kws_.items()])
+            ast.copy_location(fake, n)
+            ast.fix_missing_locations(fake)
+            return self.ev(fake, {"__mr_obj__": fval[1], **dict(zip(names_, args)), **{v: (kwargs or {})[k] for k, v in kws_.items()}}, fns)
         self.fail(n, "call of a value that is not a known function")
 
     def truthy(self, v, n: ast.AST) -> bool:
@@ -775,6 +826,20 @@ class PyReader:
             return self.apply_value(fval, args_, n, fns, {k.arg: self.ev(k.value, env, fns) for k in n.keywords if k.arg})
         f = dotted(n.func) or ""
         name = f.split(".")[-1]
+        if f == "getattr" and len(n.args) == 2 and not n.keywords and "getattr" not in self.functions and "getattr" not in env:
+            # getattr(obj, "name") is obj.name: the same evaluation as the attribute; of a method, the bound method
+            obj, attr_ = self.ev(n.args[0], env, fns), self.ev(n.args[1], env, fns)
+            if not isinstance(attr_, str) or not attr_.isidentifier():
+                self.fail(n, "getattr with a name that is not a concrete identifier")
+            fake = ast.copy_location(ast.Attribute(value=ast.Name(id="__getattr_obj__", ctx=ast.Load()), attr=attr_, ctx=ast.Load()), n)
+            ast.fix_missing_locations(fake)
+            try:
+                got_ = self.ev(fake, {**env, "__getattr_obj__": obj}, fns)
+            except AnalysisError:
+                return ("methodref", obj, attr_)
+            if isinstance(got_, tuple) and len(got_) == 3 and got_[0] == "bound":
+                return ("methodref", obj, attr_)  # called like the spelled-out obj.name(...): the rule's method hooks see it
+            return got_
         if name == "reduce" and len(n.args) in (2, 3):
             fval = self.ev(n.args[0], env, fns)
             seq = self.ev(n.args[1], env, fns)
@@ -877,15 +942,15 @@ class PyReader:
                     if n.func.attr == "keys":
                         return list(base.keys())
                     if n.func.attr == "get" and args:
-                        return base.get(args[0], args[1] if len(args) > 1 else None)
+                        return base.get(freeze(args[0]), args[1] if len(args) > 1 else None)
                     if n.func.attr == "pop" and args:
-                        if args[0] in base:
-                            return base.pop(args[0])
+                        if freeze(args[0]) in base:
+                            return base.pop(freeze(args[0]))
                         if len(args) > 1:
                             return args[1]
                         raise Raised("KeyError", getattr(n, "lineno", 0))
                     if n.func.attr == "setdefault" and len(args) == 2:
-                        return base.setdefault(args[0], args[1])
+                        return base.setdefault(freeze(args[0]), args[1])
                 if n.func.attr in ("subs", "xreplace") and isinstance(base, (T, int)) and not isinstance(base, bool):
                     if n.func.attr == "xreplace":
                         kwargs = dict(kwargs, simultaneous=True)
@@ -894,6 +959,28 @@ class PyReader:
                                                              "isspace", "isdigit", "isalpha", "count", "find", "removeprefix", "removesuffix", "expandtabs") \
                         and all(isinstance(a_, (str, int)) or (isinstance(a_, list) and all(isinstance(x_, str) for x_ in a_)) or a_ is None for a_ in args) and not kwargs:
                     return getattr(base, n.func.attr)(*[tuple(a_) if n.func.attr in ("startswith", "endswith") and isinstance(a_, list) else a_ for a_ in args])
+                if isinstance(base, PySet):
+                    if n.func.attr == "add" and len(args) == 1:
+                        base[freeze(args[0])] = True
+                        return None
+                    if n.func.attr in ("discard", "remove") and len(args) == 1:
+                        if args[0] in base:
+                            del base[args[0]]
+                        elif n.func.attr == "remove":
+                            raise Raised("KeyError", getattr(n, "lineno", 0))
+                        return None
+                    if n.func.attr in ("update", "union") and len(args) == 1 and isinstance(args[0], (list, PySet)):
+                        tgt = base if n.func.attr == "update" else PySet(base)
+                        for x_ in args[0]:
+                            tgt[x_] = True
+                        return None if n.func.attr == "update" else tgt
+                    if n.func.attr in ("issubset", "issuperset", "isdisjoint") and len(args) == 1 and isinstance(args[0], (list, PySet)):
+                        other_ = list(args[0])
+                        if n.func.attr == "issubset":
+                            return all(x_ in other_ for x_ in base)
+                        if n.func.attr == "issuperset":
+                            return all(x_ in base for x_ in other_)
+                        return not any(x_ in base for x_ in other_)
                 if isinstance(base, list) and n.func.attr == "pop" and len(args) <= 1 and all(isinstance(a_, int) for a_ in args):
                     if not base or (args and not -len(base) <= args[0] < len(base)):
                         raise Raised("IndexError", getattr(n, "lineno", 0))
@@ -911,6 +998,14 @@ class PyReader:
             return {k: v for k, v in args[0]}
         if name == "dict" and len(args) == 1 and isinstance(args[0], dict):
             return dict(args[0])
+        if name in ("set", "frozenset") and len(args) <= 1:
+            out_ = PySet()
+            for x_ in (args[0] if args else []):
+                try:
+                    out_[x_] = True
+                except TypeError:
+                    self.fail(n, "unhashable set element")
+            return out_
         if name == "len" and len(args) == 1 and isinstance(args[0], (list, dict, str)):
             return len(args[0])
         if name in ("max", "min") and args and all(isinstance(a, int) for a in args):
@@ -950,6 +1045,11 @@ class PyReader:
             if isinstance(a, T) and a.op == "neg" and a.args[0].op == "num":
                 return a.args[0]
             self.fail(n, "abs of a symbolic value")
+        if name in ("round", "floor", "ceil", "trunc") and name not in self.functions and 1 <= len(args) <= 2 and not kwargs \
+                and all(isinstance(a, (T, int)) and not isinstance(a, bool) for a in args):
+            if all(isinstance(a, int) for a in args):
+                return round(*args) if name == "round" else args[0]
+            return app(name, *[a if isinstance(a, T) else num(a) for a in args])  # an uninterpreted function of its arguments: equal to nothing but itself
         if name in ("sqrt", "sin", "cos", "tan") and len(args) == 1:
             return op(name, self.scalar(args[0], n))
         if name in ("any", "all") and len(args) == 1 and isinstance(args[0], list) and all(isinstance(x, bool) for x in args[0]):
